@@ -875,6 +875,17 @@ def other_entry_points(run, vsim, d, quick, cfgname, fmt, data, verdicts, r):
     p = os.path.join(d.path, "dmg.colvars.state")
     n = 0
     if fmt == "binary" and len(data) > 8:
+        # a buffer that ends inside the magic number: the stream fails before any reader could report an error
+        for cut in (1, 3):
+            open(p, "wb").write(data[:cut])
+            rc, ld = try_load_(vsim, d, "dmg.colvars.state", cfgname, False, how)
+            n += 1
+            run.count("%s-binary-buf-short-%d" % (cfgname, cut), True)
+            run.dist("damage:binary-prefix-via-buffer")
+            if rc >= 128 or rc == 124 or rc < 0 or ld is None or ld[0] == "ok":
+                run.violation("load.binary-prefix-accepted-via-buf:inside-magic-number", "the first %d byte(s) of a valid binary state (%s configuration) given to set_input_state_buffer() %s"
+                              % (cut, cfgname, "are accepted without any error" if (ld and ld[0] == "ok") else "kill or hang the process (rc=%d)" % rc),
+                              {"kind": "load", "format": fmt, "config": cfgname, "cut": cut, "how": how})
         # a complete buffer whose magic number is wrong (colvarmodule::read_state(memory_stream &) is the only check on this path)
         dd = bytearray(data); dd[0] ^= 1
         open(p, "wb").write(bytes(dd))
